@@ -8,13 +8,11 @@ namespace Pandora.Spec.C03
 open Pandora.Model.C03
 
 structure Counters where
-  started : Nat            -- metrics.InstanceStart
+  started : Nat            -- instances of this pool that ran (engine-wide: metrics.InstanceStart)
   fired : Nat              -- Gun.Shoot calls
   discarded : Nat          -- Aggregator.Report of a discarded sample
   acquired : Nat           -- Provider.Acquire calls that returned an item
   released : Nat           -- Provider.Release calls
-  request : Nat            -- metrics.Request
-  response : Nat           -- metrics.Response
   usedAfterRelease : Bool  -- a Shoot got an item its instance did not hold at that moment
   doubleRelease : Bool     -- a Release of an item that was not held
   maxReleases : Nat        -- the largest number of Release calls any single item received
@@ -23,7 +21,8 @@ structure Counters where
 /-- total tokens: the shared profile, or one full profile per started instance -/
 def totalTokens (c : Cfg) (k : Counters) : Nat := if c.perInstance then k.started * c.tokens else c.tokens
 
-def verdict (c : Cfg) (k : Counters) : String :=
+/-- one pool that ended normally -/
+def poolVerdict (c : Cfg) (k : Counters) : String :=
   let total := minOpt (totalTokens c k) c.ammo
   if c.instances == 0 then "skip:startup-schedule-starts-no-instance"
   else if k.started == 0 then s!"fail:count:no instance was started although the startup schedule has {c.instances} tokens"
@@ -36,9 +35,19 @@ def verdict (c : Cfg) (k : Counters) : String :=
     s!"fail:unfired:per-instance profile left {k.acquired - (k.fired + k.discarded)} acquired items unfired"
   else if !c.perInstance && k.acquired - (k.fired + k.discarded) > k.started - 1 then
     s!"fail:unfired:{k.acquired - (k.fired + k.discarded)} unfired items with {k.started} instances"
-  else if k.request != k.fired || k.response != k.fired then
-    s!"fail:metrics:request {k.request} response {k.response} fired {k.fired}"
   else if !c.discardOn && k.discarded != 0 then s!"fail:discard-off:{k.discarded} discarded with discard_overflow off"
   else "ok"
+
+/-- the engine: every pool, then the engine's Request / Response counters against the shots fired by all its pools -/
+def verdict (pools : List (Cfg × Counters)) (request response : Nat) : String :=
+  let vs := pools.map fun (c, k) => poolVerdict c k
+  match vs.find? (fun v => v.startsWith "fail") with
+  | some v => v
+  | none =>
+    let fired := (pools.map fun (_, k) => k.fired).sum
+    if request != fired || response != fired then
+      s!"fail:metrics:request {request} response {response} fired {fired}"
+    else if vs.all (fun v => v.startsWith "skip") then vs.headD "skip:no-pool"
+    else "ok"
 
 end Pandora.Spec.C03
